@@ -263,10 +263,14 @@ def precedence_cases(draw):
 def deep_stack_cases(draw):
     """stacks of several hundred items (limit: 1000 with the alt stack): OP_PICK / OP_ROLL with indices beyond one byte and at the far end, OP_DEPTH
     results beyond 255, bulk moves to the alt stack and back, the 2/3-item movers near the limit"""
-    n = draw(st.sampled_from([254, 255, 256, 257, 258, 300, 511, 512, 513, 700, 996, 997, 998, 999, 1000]))
+    n = draw(st.sampled_from([254, 255, 256, 257, 258, 300, 511, 512, 513, 700, 996, 997, 998, 999, 1000, 1001, 1002, 1003]))
     distinct = draw(st.booleans())
     stack = [R.num_enc(i) if distinct else b'\x01' for i in range(n)]
     body = bytearray()
+    if n > 1000:
+        # more than 1000 items to START with: the limit is tested after each operation (nothing limits the initial stack of a legacy / v0 script), so a first
+        # operation that shrinks the stack to 1000 or less makes a valid execution of it - a growing or neutral one fails at operation 0
+        body += draw(st.sampled_from([b'\x75', b'\x6d', b'\x6d\x75', b'\x77', b'\x88', b'\x61', b'\x76', b'\x51', b'\x6b', b'\x6d\x6d']))
     for _ in range(draw(st.integers(1, 6))):
         k = draw(st.integers(0, 9))
         if k < 4:
